@@ -386,7 +386,7 @@ def cleartext_str(nsigs):
             want = z3.Concat(lit('-----BEGIN PGP SIGNED MESSAGE-----\n'), hhdr, lit('\n'), ESC(TEXT), lit('\n'), ARMOR)
             r.oblige(s, 'rfc4880-7:header-line,hash-header,empty-line,dash-escaped-text,signature-block/p%d' % pi, v.z == want)
         return r.result()
-    return Scenario(label, MSGC + '.__str__', gen, props=('C11',))
+    return Scenario(label, MSGC + '.__str__', gen, props=('C11', 'C02'))
 
 
 _base_scn_ct = scenarios
